@@ -329,6 +329,20 @@ func cmdRun(args []string) int {
 			rc[f.v.Rule]++
 		}
 		fmt.Printf("vcheck: violations by rule: %v\n", rc)
+		dc := map[string]int{}
+		for _, f := range founds {
+			if f.v.Rule == "panic" {
+				l := strings.Split(f.v.Detail, "\n")
+				k := l[0]
+				if len(l) > 1 {
+					k += " @" + strings.TrimSpace(l[1])
+				}
+				dc[trunc(k, 220)]++
+			}
+		}
+		for _, k := range sortedKeysInt(dc) {
+			fmt.Printf("vcheck:   %4d x %s\n", dc[k], k)
+		}
 		sort.Slice(founds, func(i, j int) bool {
 			if founds[i].v.Rule != founds[j].v.Rule {
 				return founds[i].v.Rule < founds[j].v.Rule
